@@ -1,19 +1,280 @@
-// Package zzmain is the worker entry point shared by the test binaries.
+// Package zzmain is the worker entry point shared by the test binaries: it
+// reads a job, executes seeded simulated runs of one engine, shrinks failing
+// runs, and writes the aggregated result.
 package zzmain
 
 import (
+	"encoding/json"
 	"fmt"
+	"os"
+	"sort"
+	"time"
 
-	"go.uber.org/thriftrw/internal/zzsim/gen/registry"
+	"go.uber.org/thriftrw/internal/zzsim/simrt"
+	"go.uber.org/thriftrw/internal/zzsim/world"
 )
 
-// HostMain is main.do, set by the root package's TestMain.
-var HostMain func() error
+// Engine is one property's simulated world.
+type Engine struct {
+	Run   func(cfg simrt.Config, o world.Opts) *world.Result
+	Cells func(tier string) int // systematic-floor cells (nil: none)
+}
 
-// TBRun is cmd/thriftbreak's run, set by that package's TestMain.
-var TBRun func(args []string) error
+// Engines is filled by the registering packages (see register_*.go).
+var Engines = map[string]Engine{}
+
+type Job struct {
+	Prop     string  `json:"prop"`
+	Tier     string  `json:"tier"`
+	Mode     string  `json:"mode"` // search | replay | hash
+	Seed     uint64  `json:"seed"`
+	Worker   int     `json:"worker"`
+	Stride   int     `json:"stride"`
+	Count    int     `json:"count"` // total seeded runs across all workers
+	Floor    bool    `json:"floor"` // run the systematic floor cells first
+	Kind     string  `json:"kind"`
+	TmpDir   string  `json:"tmp"`
+	Out      string  `json:"out"`
+	BudgetS  float64 `json:"budget_s"`
+	Replay   []int32 `json:"replay,omitempty"`
+	Samples  int     `json:"samples"`
+	MaxViol  int     `json:"max_violations"`
+	ShrinkS  float64 `json:"shrink_s"`
+	Repeat   int     `json:"repeat"` // hash mode: execute each seed this many times in-process
+	StepCap  int64   `json:"step_cap"`
+	FirstIdx int     `json:"first_index"`
+}
+
+type Violation struct {
+	Check     string   `json:"check"`
+	Msg       string   `json:"msg"`
+	Seed      uint64   `json:"seed"`
+	Index     int      `json:"index"`
+	Cell      int      `json:"cell"`
+	RunSeed   uint64   `json:"run_seed"`
+	Choices   []int32  `json:"choices"`
+	OrigLen   int      `json:"original_choices"`
+	ShrinkRun int      `json:"shrink_executions"`
+	Trace     []string `json:"trace"`
+	AllChecks []string `json:"all_checks"`
+	Kind      string   `json:"kind"`
+}
+
+type Output struct {
+	Prop        string            `json:"prop"`
+	Worker      int               `json:"worker"`
+	Runs        int64             `json:"runs"`
+	Nontrivial  int64             `json:"nontrivial"`
+	Keys        []uint64          `json:"keys"`
+	SchedHashes []uint64          `json:"sched_hashes"`
+	MapHashes   []uint64          `json:"map_hashes"`
+	Steps       int64             `json:"steps"`
+	Switches    int64             `json:"switches"`
+	Counts      map[string]int64  `json:"counts"`
+	Probes      map[string]int64  `json:"probes"`
+	Violations  []Violation       `json:"violations"`
+	Samples     []interface{}     `json:"samples"`
+	Hashes      map[string]uint64 `json:"hashes,omitempty"`
+	Notes       []string          `json:"notes"`
+	Stopped     string            `json:"stopped"`
+	WallS       float64           `json:"wall_s"`
+	Aborted     int64             `json:"aborted_runs"`
+	Diverged    []string          `json:"diverged,omitempty"`
+	ReplayFails []simrt.Failure   `json:"replay_failures,omitempty"`
+	ReplayTrace []string          `json:"replay_trace,omitempty"`
+}
 
 func Main() int {
-	fmt.Println("worker: registry types:", len(registry.Types))
+	path := os.Getenv("VSIM_JOB")
+	data, err := os.ReadFile(path)
+	if err != nil {
+		fmt.Fprintln(os.Stderr, "worker: cannot read job:", err)
+		return 2
+	}
+	var job Job
+	if err := json.Unmarshal(data, &job); err != nil {
+		fmt.Fprintln(os.Stderr, "worker: bad job:", err)
+		return 2
+	}
+	eng, ok := Engines[job.Prop]
+	if !ok {
+		fmt.Fprintln(os.Stderr, "worker: no engine for", job.Prop)
+		return 2
+	}
+	out := run(job, eng)
+	enc, _ := json.Marshal(out)
+	if err := os.WriteFile(job.Out, enc, 0644); err != nil {
+		fmt.Fprintln(os.Stderr, "worker: cannot write result:", err)
+		return 2
+	}
 	return 0
+}
+
+func run(job Job, eng Engine) *Output {
+	start := time.Now()
+	out := &Output{Prop: job.Prop, Worker: job.Worker, Counts: map[string]int64{}}
+	keys := map[uint64]struct{}{}
+	sched := map[uint64]struct{}{}
+	maps := map[uint64]struct{}{}
+	if job.Stride < 1 {
+		job.Stride = 1
+	}
+	if job.MaxViol == 0 {
+		job.MaxViol = 3
+	}
+	opts := func(cell int, trace bool) world.Opts {
+		return world.Opts{Prop: job.Prop, Kind: job.Kind, Cell: cell, Trace: trace, Tier: job.Tier, Worker: job.Worker, TmpDir: job.TmpDir}
+	}
+	cfgFor := func(seed uint64) simrt.Config {
+		return simrt.Config{Seed: seed, StepCap: job.StepCap}
+	}
+
+	if job.Mode == "replay" {
+		r := eng.Run(simrt.Config{Replay: job.Replay, IsReplay: true, StepCap: job.StepCap}, opts(-1, true))
+		out.Runs = 1
+		out.ReplayFails = r.Failures
+		out.ReplayTrace = r.Trace
+		out.Samples = append(out.Samples, r.Sample)
+		out.WallS = time.Since(start).Seconds()
+		out.Probes = simrt.ProbeSnapshot()
+		return out
+	}
+
+	account := func(r *world.Result) {
+		out.Runs++
+		if r.Nontrivial {
+			out.Nontrivial++
+			keys[r.Key] = struct{}{}
+		}
+		if r.Switches > 0 {
+			sched[r.SchedHash] = struct{}{}
+		}
+		if r.MapHash != 0 {
+			maps[r.MapHash] = struct{}{}
+		}
+		out.Steps += r.Steps
+		out.Switches += r.Switches
+		if r.Aborted != "" {
+			out.Aborted++
+		}
+		for k, v := range r.Counts {
+			out.Counts[k] += v
+		}
+		for _, n := range r.Notes {
+			if len(out.Notes) < 20 {
+				out.Notes = append(out.Notes, n)
+			}
+		}
+	}
+
+	handle := func(r *world.Result, runSeed uint64, index, cell int) {
+		account(r)
+		if len(r.Failures) == 0 {
+			return
+		}
+		v := Violation{Check: r.Failures[0].Check, Msg: r.Failures[0].Msg, Seed: job.Seed, Index: index, Cell: cell, RunSeed: runSeed, OrigLen: len(r.Choices), Kind: job.Kind}
+		for _, f := range r.Failures {
+			v.AllChecks = append(v.AllChecks, f.Check)
+		}
+		budget := job.ShrinkS
+		if budget == 0 {
+			budget = 30
+		}
+		min, execs := Shrink(r.Choices, v.Check, time.Duration(budget*float64(time.Second)), func(ch []int32) *world.Result {
+			return eng.Run(simrt.Config{Replay: ch, IsReplay: true, StepCap: job.StepCap}, opts(-1, false))
+		})
+		v.ShrinkRun = execs
+		v.Choices = min
+		fr := eng.Run(simrt.Config{Replay: min, IsReplay: true, StepCap: job.StepCap}, opts(-1, true))
+		v.Trace = fr.Trace
+		if len(fr.Failures) > 0 {
+			v.Msg = fr.Failures[0].Msg
+			v.Check = fr.Failures[0].Check
+		} else {
+			v.Trace = append(v.Trace, "WARNING: minimised replay did not fail again (non-determinism in the harness?)")
+		}
+		out.Violations = append(out.Violations, v)
+	}
+
+	deadline := time.Duration(job.BudgetS * float64(time.Second))
+	over := func() bool { return job.BudgetS > 0 && time.Since(start) > deadline }
+
+	if job.Mode == "hash" {
+		out.Hashes = map[string]uint64{}
+		rep := job.Repeat
+		if rep < 1 {
+			rep = 1
+		}
+		for i := job.Worker; i < job.Count; i += job.Stride {
+			idx := job.FirstIdx + i
+			runSeed := simrt.Derive(job.Seed, uint64(idx))
+			var h0 uint64
+			for k := 0; k < rep; k++ {
+				r := eng.Run(cfgFor(runSeed), opts(-1, false))
+				if k == 0 {
+					h0 = r.Hash
+					account(r)
+					// replaying the recorded choices must give the same run
+					rr := eng.Run(simrt.Config{Replay: r.Choices, IsReplay: true, StepCap: job.StepCap}, opts(-1, false))
+					if rr.Hash != r.Hash {
+						out.Diverged = append(out.Diverged, fmt.Sprintf("index %d: replay hash %x != search hash %x", idx, rr.Hash, r.Hash))
+					}
+				} else if r.Hash != h0 {
+					out.Diverged = append(out.Diverged, fmt.Sprintf("index %d: in-process repeat %d hash %x != %x", idx, k, r.Hash, h0))
+				}
+			}
+			out.Hashes[fmt.Sprint(idx)] = h0
+		}
+		out.WallS = time.Since(start).Seconds()
+		out.Probes = simrt.ProbeSnapshot()
+		return out
+	}
+
+	// systematic floor
+	if job.Floor && eng.Cells != nil {
+		n := eng.Cells(job.Tier)
+		for c := job.Worker; c < n; c += job.Stride {
+			if len(out.Violations) >= job.MaxViol {
+				break
+			}
+			runSeed := simrt.Derive(job.Seed, 0xf100, uint64(c))
+			r := eng.Run(cfgFor(runSeed), opts(c, len(out.Samples) < job.Samples && c%7 == 3))
+			if r.Sample != nil && len(out.Samples) < job.Samples {
+				out.Samples = append(out.Samples, r.Sample)
+			}
+			handle(r, runSeed, -1, c)
+			out.Counts["floor.cells-run"]++
+		}
+	}
+	for i := job.Worker; i < job.Count; i += job.Stride {
+		if over() {
+			out.Stopped = "time budget reached"
+			break
+		}
+		if len(out.Violations) >= job.MaxViol {
+			out.Stopped = "violation limit reached"
+			break
+		}
+		idx := job.FirstIdx + i
+		runSeed := simrt.Derive(job.Seed, uint64(idx))
+		wantSample := len(out.Samples) < job.Samples && (i/job.Stride)%5 == 1
+		r := eng.Run(cfgFor(runSeed), opts(-1, wantSample))
+		if r.Sample != nil && len(out.Samples) < job.Samples {
+			out.Samples = append(out.Samples, r.Sample)
+		}
+		handle(r, runSeed, idx, -1)
+	}
+	for k := range keys {
+		out.Keys = append(out.Keys, k)
+	}
+	for k := range sched {
+		out.SchedHashes = append(out.SchedHashes, k)
+	}
+	for k := range maps {
+		out.MapHashes = append(out.MapHashes, k)
+	}
+	sort.Slice(out.Keys, func(i, j int) bool { return out.Keys[i] < out.Keys[j] })
+	out.Probes = simrt.ProbeSnapshot()
+	out.WallS = time.Since(start).Seconds()
+	return out
 }
